@@ -291,10 +291,13 @@ class Hugr(Mapping[Node, NodeData], Generic[OpVarCov]):
         parent = self[node].parent
         if parent:
             self[parent].children.remove(node)
-        for inp, _ in self.incoming_links(node):
-            self._links.delete_right(_SubPort(inp))
-        for out, _ in self.outgoing_links(node):
-            self._links.delete_left(_SubPort(out))
+        # remove every link of every port, including the order ports (offset -1)
+        for offset in range(-1, self.num_in_ports(node)):
+            while (in_sub := _SubPort(node.inp(offset))) in self._links.bck:
+                self._remove_sub_link(self._links.bck[in_sub])
+        for offset in range(-1, self.num_out_ports(node)):
+            while (out_sub := _SubPort(node.out(offset))) in self._links.fwd:
+                self._remove_sub_link(out_sub)
 
         weight, self._nodes[node.idx] = self._nodes[node.idx], None
 
@@ -386,10 +389,31 @@ class Hugr(Mapping[Node, NodeData], Generic[OpVarCov]):
             sub_offset = next(
                 i for i, inp in enumerate(self.linked_ports(src)) if inp == dst
             )
-            self._links.delete_left(_SubPort(src, sub_offset))
         except StopIteration:
             return
-        # TODO make sure sub-offset is handled correctly
+        self._remove_sub_link(_SubPort(src, sub_offset))
+
+    def _remove_sub_link(self, src_sub: _SO) -> None:
+        """Remove a single link and close the gap it leaves, so that the
+        sub-offsets in use on both of its ports stay contiguous (which
+        :meth:`_linked_ports` and :meth:`_unused_sub_offset` rely on).
+        """
+        dst_sub = self._links.fwd[src_sub]
+        self._links.delete_left(src_sub)
+        # shift down the later links of the source port
+        later_src = src_sub.next_sub_offset()
+        while later_src in self._links.fwd:
+            tgt = self._links.fwd[later_src]
+            self._links.delete_left(later_src)
+            self._links.insert_left(src_sub, tgt)
+            src_sub, later_src = later_src, later_src.next_sub_offset()
+        # shift down the later links of the target port
+        later_dst = dst_sub.next_sub_offset()
+        while later_dst in self._links.bck:
+            origin = self._links.bck[later_dst]
+            self._links.delete_right(later_dst)
+            self._links.insert_left(origin, dst_sub)
+            dst_sub, later_dst = later_dst, later_dst.next_sub_offset()
 
     def root_op(self) -> OpVarCov:
         """The operation of the root node.
